@@ -1255,29 +1255,54 @@ func ruleP19Persist(p *Prog, r *Report) {
 	if !r.anchorFn(rule, f, "(*context).ManipulateBookmarks") || !r.anchorFn(rule, wf, "app.WriteToFile") {
 		return
 	}
-	writes := callsTo(f, wf)
-	if len(writes) != 1 {
-		r.undecided(rule, "write", p.pos(f.Pos()), "expected one WriteToFile in ManipulateBookmarks, found %d", len(writes))
+	vws := virtualCallsTo(f, wf)
+	if len(vws) != 1 {
+		r.undecided(rule, "write", p.pos(f.Pos()), "expected one WriteToFile in ManipulateBookmarks, found %d", len(vws))
 		return
 	}
-	w := writes[0]
+	w := vws[0].call
 	// what is written: ToJson of the collection that was read and manipulated
-	nm, rv, _, _ := methodCall(w.Common().Args[1])
-	okData := nm == "ToJson"
-	if okData {
-		c, idx := callOf(strip(rv))
-		okData = c != nil && idx == 0 && fnBase(staticCalleeOrNil(c)) == "ReadBookmarks"
-	}
-	r.check(okData, rule, "data", p.instrPos(w), "writes ToJson() of the collection that was read and manipulated", "what is written is not ToJson() of the collection read by ReadBookmarks")
-	for i, ret := range returnsOf(f) {
-		key := fmt.Sprintf("return#%d", i)
+	vws[0].run(func() {
+		nm, rv, _, _ := methodCall(w.Common().Args[1])
+		okData := nm == "ToJson"
+		if okData {
+			c, idx := callOf(strip(rv))
+			okData = c != nil && idx == 0 && fnBase(staticCalleeOrNil(c)) == "ReadBookmarks"
+		}
+		r.check(okData, rule, "data", p.instrPos(w), "writes ToJson() of the collection that was read and manipulated", "what is written is not ToJson() of the collection read by ReadBookmarks")
+	})
+	// every return reports a failure or IS the result of the write (possibly through a helper
+	// whose returns are again of these two kinds)
+	var okReturn func(g *ssa.Function, ret *ssa.Return, depth int) bool
+	okReturn = func(g *ssa.Function, ret *ssa.Return, depth int) bool {
 		v := retResult(ret, 0)
 		if p.nilnessAt(ret.Block(), v, 0) == nnNonNil {
-			r.ok(rule, key, p.instrPos(ret), "reports a failure")
-			continue
+			return true
 		}
 		c, _ := callOf(derefFlow(v))
-		r.check(c != nil && c == w, rule, key, p.instrPos(ret), "success is the result of the write", "ManipulateBookmarks can report success without having written the database")
+		if c == nil {
+			// strip may already have looked through a single-return helper
+			c, _ = callOf(v)
+		}
+		if c != nil && c == w {
+			return true
+		}
+		if cc, isCall := v.(*ssa.Call); isCall && depth < 3 {
+			if h := rawStaticCallee(cc); h != nil && isHelper(h) {
+				all := true
+				for _, hr := range returnsOf(originFn(h)) {
+					if !okReturn(originFn(h), hr, depth+1) {
+						all = false
+					}
+				}
+				return all
+			}
+		}
+		return false
+	}
+	for i, ret := range returnsOf(f) {
+		key := fmt.Sprintf("return#%d", i)
+		r.check(okReturn(f, ret, 0), rule, key, p.instrPos(ret), "reports a failure, or success is the result of the write", "ManipulateBookmarks can report success without having written the database")
 	}
 }
 
